@@ -11,9 +11,45 @@ NAME = 'c06_blocks'
 BUILDER = 'src/rpm/builder.rs'
 TOSTR = (re.compile(r'"([^"]*)"\.to_string\(\)'), r'str_to_owned("\1")', None, 'R12-to_string on a literal')
 
+# (builder field, tags const, script tag, flags tag, interpreter tag, rpm name)
+SCRIPTLETS = [
+    ('pre_inst_script', 1023, 5020, 1085, '%pre'),
+    ('post_inst_script', 1024, 5021, 1086, '%post'),
+    ('pre_uninst_script', 1025, 5022, 1087, '%preun'),
+    ('post_uninst_script', 1026, 5023, 1088, '%postun'),
+    ('pre_trans_script', 1151, 5024, 1153, '%pretrans'),
+    ('post_trans_script', 1152, 5025, 1154, '%posttrans'),
+    ('pre_untrans_script', 5103, 5107, 5105, '%preuntrans'),
+    ('post_untrans_script', 5104, 5108, 5106, '%postuntrans'),
+    ('verify_script', 1079, 5026, 1091, '%verifyscript'),
+]
+SCRIPT_BLOCKS = []
+# one block per scriptlet kind; the LAST block spans the last two kinds up to the vendor record, so that a
+# kind whose emission is missing altogether fails a postcondition instead of losing an anchor
+_GROUPS = [[x] for x in SCRIPTLETS[:-2]] + [SCRIPTLETS[-2:]]
+for _k, _g in enumerate(_GROUPS):
+    _end = ('        if let Some(script) = self.%s {' % _GROUPS[_k + 1][0][0]) if _k + 1 < len(_GROUPS) \
+        else '        if let Some(vendor) = self.vendor {'
+    _hdr = '''    /// B9.%d - the %s scriptlet is emitted under the rpm tags of THAT kind, earlier records untouched.
+    /// Free variables: self, offset, actual_records.
+    pub fn b9_%s(self, offset: i32, records: Vec<IndexEntry<IndexTag>>) -> (r: Vec<IndexEntry<IndexTag>>)
+        ensures
+            prefix_of(records@, r@),
+''' % (_k + 1, ' and '.join(x[4] for x in _g), _g[0][0])
+    _hdr += '\n'.join('            scriptlet_emitted(r@, self.%s, %d, %d, %d),' % x[:4] for x in _g)
+    SCRIPT_BLOCKS.append(Block(
+        BUILDER, 'prepare_data', impl='impl PackageBuilder', exclusive=True, keep_start=True,
+        start='        if let Some(script) = self.%s {' % _g[0][0], end=_end,
+        subs=[(re.compile(r'\A'), '        let mut actual_records = records;\n', 1, 'block prologue: bind the free variable')],
+        header=_hdr, tail='\n        actual_records'))
+
 PARTS = HEAD + consts('INDEX_HEADER_SIZE', 'INDEX_ENTRY_SIZE', 'HEADER_MAGIC') + io_head() + header_types() + [
     Prelude('hdrspec.rs'),
 ] + tag_enums() + [
+    Decl(TYPES, 'struct', 'Scriptlet'),
+] + consts('PREIN_TAGS', 'POSTIN_TAGS', 'PREUN_TAGS', 'POSTUN_TAGS', 'PRETRANS_TAGS', 'POSTTRANS_TAGS', 'PREUNTRANS_TAGS', 'POSTUNTRANS_TAGS') + [
+    Decl(CONST, 'const', 'VERIFYSCRIPT_TAGS', optional=True),   # absent before fix ea8105c: the block then fails its postcondition
+] + [
     Raw('''
 impl<T: Tag> IndexEntry<T> {
     /// V:c09_from_entries:IndexEntry::new
@@ -38,6 +74,27 @@ pub struct PackageBuilder {
     pub license: String, pub summary: String, pub desc: Option<String>,
     pub vendor: Option<String>, pub packager: Option<String>, pub group: Option<String>,
     pub url: Option<String>, pub vcs: Option<String>, pub cookie: Option<String>, pub build_host: Option<String>,
+    pub pre_inst_script: Option<Scriptlet>, pub post_inst_script: Option<Scriptlet>,
+    pub pre_uninst_script: Option<Scriptlet>, pub post_uninst_script: Option<Scriptlet>,
+    pub pre_trans_script: Option<Scriptlet>, pub post_trans_script: Option<Scriptlet>,
+    pub pre_untrans_script: Option<Scriptlet>, pub post_untrans_script: Option<Scriptlet>,
+    pub verify_script: Option<Scriptlet>,
+}
+/// R5: bitflags type; only `bits()` is used
+pub struct ScriptletFlags { pub b: u32 }
+impl ScriptletFlags {
+    #[verifier::external_body]
+    pub fn bits(&self) -> (r: u32) ensures r == self.b { unimplemented!() }
+}
+pub type ScriptletIndexTags = (IndexTag, IndexTag, IndexTag);
+/// a scriptlet given to the builder is emitted under the three tags of its kind (C06):
+/// body as a string, flags as int32, interpreter + arguments as a string array
+pub open spec fn scriptlet_emitted(recs: Seq<IndexEntry<IndexTag>>, s: Option<Scriptlet>, t_script: u32, t_flags: u32, t_prog: u32) -> bool {
+    s is Some ==> {
+        &&& has_str(recs, t_script, s->0.script@)
+        &&& (s->0.flags is Some ==> has_u32(recs, t_flags, s->0.flags->0.b))
+        &&& (s->0.program is Some ==> has_strs(recs, t_prog, s->0.program->0@))
+    }
 }
 pub open spec fn has_str(recs: Seq<IndexEntry<IndexTag>>, tag: u32, s: Seq<char>) -> bool {
     exists|i: int| 0 <= i < recs.len() && (#[trigger] recs[i]).tag == tag && recs[i].data is StringTag && recs[i].data->StringTag_0@ == s
@@ -48,6 +105,100 @@ pub open spec fn has_i18n(recs: Seq<IndexEntry<IndexTag>>, tag: u32, s: Seq<char
 }
 pub open spec fn has_u32(recs: Seq<IndexEntry<IndexTag>>, tag: u32, x: u32) -> bool {
     exists|i: int| 0 <= i < recs.len() && (#[trigger] recs[i]).tag == tag && recs[i].data is Int32 && recs[i].data->Int32_0@ == seq![x]
+}
+pub open spec fn has_strs(recs: Seq<IndexEntry<IndexTag>>, tag: u32, v: Seq<String>) -> bool {
+    exists|i: int| 0 <= i < recs.len() && (#[trigger] recs[i]).tag == tag && recs[i].data is StringArray && recs[i].data->StringArray_0@ == v
+}
+/// every string / int32 / string-array record findable in `a` is findable in `b`
+pub open spec fn kept(a: Seq<IndexEntry<IndexTag>>, b: Seq<IndexEntry<IndexTag>>) -> bool {
+    &&& forall|t: u32, s: Seq<char>| has_str(a, t, s) ==> #[trigger] has_str(b, t, s)
+    &&& forall|t: u32, x: u32| has_u32(a, t, x) ==> #[trigger] has_u32(b, t, x)
+    &&& forall|t: u32, v: Seq<String>| has_strs(a, t, v) ==> #[trigger] has_strs(b, t, v)
+}
+/// `a` is a prefix of `b`, stated index-wise (cheap for the solver along a chain of pushes)
+pub open spec fn prefix_of(a: Seq<IndexEntry<IndexTag>>, b: Seq<IndexEntry<IndexTag>>) -> bool {
+    &&& a.len() <= b.len()
+    &&& forall|i: int| #![trigger a[i]] #![trigger b[i]] 0 <= i < a.len() ==> b[i] == a[i]
+}
+pub proof fn lemma_prefix_kept(a: Seq<IndexEntry<IndexTag>>, b: Seq<IndexEntry<IndexTag>>)
+    requires prefix_of(a, b),
+    ensures kept(a, b),
+{
+    assert forall|t: u32, s: Seq<char>| has_str(a, t, s) implies #[trigger] has_str(b, t, s) by {
+        let i = choose|i: int| 0 <= i < a.len() && (#[trigger] a[i]).tag == t && a[i].data is StringTag && a[i].data->StringTag_0@ == s;
+        assert(b[i] == a[i]);
+    }
+    assert forall|t: u32, x: u32| has_u32(a, t, x) implies #[trigger] has_u32(b, t, x) by {
+        let i = choose|i: int| 0 <= i < a.len() && (#[trigger] a[i]).tag == t && a[i].data is Int32 && a[i].data->Int32_0@ == seq![x];
+        assert(b[i] == a[i]);
+    }
+    assert forall|t: u32, s: Seq<String>| has_strs(a, t, s) implies #[trigger] has_strs(b, t, s) by {
+        let i = choose|i: int| 0 <= i < a.len() && (#[trigger] a[i]).tag == t && a[i].data is StringArray && a[i].data->StringArray_0@ == s;
+        assert(b[i] == a[i]);
+    }
+}
+pub proof fn lemma_prefix_trans(a: Seq<IndexEntry<IndexTag>>, b: Seq<IndexEntry<IndexTag>>, c: Seq<IndexEntry<IndexTag>>)
+    requires prefix_of(a, b), prefix_of(b, c),
+    ensures prefix_of(a, c),
+{
+    assert forall|i: int| 0 <= i < a.len() implies c[i] == a[i] by { assert(b[i] == a[i]); assert(c[i] == b[i]); }
+}
+pub proof fn lemma_prefix_emitted(a: Seq<IndexEntry<IndexTag>>, b: Seq<IndexEntry<IndexTag>>, s: Option<Scriptlet>, t1: u32, t2: u32, t3: u32)
+    requires prefix_of(a, b), scriptlet_emitted(a, s, t1, t2, t3),
+    ensures scriptlet_emitted(b, s, t1, t2, t3),
+{
+    lemma_prefix_kept(a, b);
+}
+/// Composition of the per-scriptlet block contracts B9.1 .. B9.n executed in sequence (r[k] is the record
+/// list before block k+1): every scriptlet is findable in the final list and the initial records are kept.
+pub proof fn lemma_scriptlet_chain(r: Seq<Seq<IndexEntry<IndexTag>>>, s: Seq<Option<Scriptlet>>, t: Seq<(u32, u32, u32)>, n: nat)
+    requires
+        r.len() == n + 1, s.len() == n, t.len() == n,
+        forall|k: int| 0 <= k < n ==> prefix_of(#[trigger] r[k], r[k + 1]) && scriptlet_emitted(r[k + 1], s[k], t[k].0, t[k].1, t[k].2),
+    ensures
+        prefix_of(r[0], r[n as int]),
+        forall|k: int| 0 <= k < n ==> scriptlet_emitted(r[n as int], #[trigger] s[k], t[k].0, t[k].1, t[k].2),
+    decreases n,
+{
+    if n > 0 {
+        let m = (n - 1) as nat;
+        assert(prefix_of(r[m as int], r[m as int + 1]));
+        let r1 = r.take(n as int); let s1 = s.take(m as int); let t1 = t.take(m as int);
+        assert forall|k: int| 0 <= k < m implies prefix_of(#[trigger] r1[k], r1[k + 1]) && scriptlet_emitted(r1[k + 1], s1[k], t1[k].0, t1[k].1, t1[k].2) by {
+            assert(prefix_of(r[k], r[k + 1]));
+        }
+        lemma_scriptlet_chain(r1, s1, t1, m);
+        lemma_prefix_trans(r[0], r[m as int], r[n as int]);
+        assert forall|k: int| 0 <= k < n implies scriptlet_emitted(r[n as int], #[trigger] s[k], t[k].0, t[k].1, t[k].2) by {
+            if k < m {
+                assert(s1[k] == s[k]);
+                lemma_prefix_emitted(r[m as int], r[n as int], s[k], t[k].0, t[k].1, t[k].2);
+            }
+        }
+    }
+}
+pub broadcast proof fn lemma_push_kept(v: Seq<IndexEntry<IndexTag>>, e: IndexEntry<IndexTag>)
+    ensures
+        #![trigger v.push(e)]
+        e.data is StringTag ==> has_str(v.push(e), e.tag, e.data->StringTag_0@),
+        e.data is Int32 ==> forall|x: u32| e.data->Int32_0@ == seq![x] ==> has_u32(v.push(e), e.tag, x),
+        e.data is StringArray ==> has_strs(v.push(e), e.tag, e.data->StringArray_0@),
+        kept(v, v.push(e)),
+{
+    let w = v.push(e);
+    assert(w[v.len() as int] == e);
+    assert forall|t: u32, s: Seq<char>| has_str(v, t, s) implies #[trigger] has_str(w, t, s) by {
+        let i = choose|i: int| 0 <= i < v.len() && (#[trigger] v[i]).tag == t && v[i].data is StringTag && v[i].data->StringTag_0@ == s;
+        assert(w[i] == v[i]);
+    }
+    assert forall|t: u32, x: u32| has_u32(v, t, x) implies #[trigger] has_u32(w, t, x) by {
+        let i = choose|i: int| 0 <= i < v.len() && (#[trigger] v[i]).tag == t && v[i].data is Int32 && v[i].data->Int32_0@ == seq![x];
+        assert(w[i] == v[i]);
+    }
+    assert forall|t: u32, s: Seq<String>| has_strs(v, t, s) implies #[trigger] has_strs(w, t, s) by {
+        let i = choose|i: int| 0 <= i < v.len() && (#[trigger] v[i]).tag == t && v[i].data is StringArray && v[i].data->StringArray_0@ == s;
+        assert(w[i] == v[i]);
+    }
 }
 pub open spec fn opt_emitted(recs: Seq<IndexEntry<IndexTag>>, tag: u32, o: Option<String>) -> bool {
     o is Some ==> has_str(recs, tag, o->0@)
@@ -112,7 +263,7 @@ impl PackageBuilder {
         }
         actual_records'''),
     Block(BUILDER, 'prepare_data', impl='impl PackageBuilder', exclusive=True,
-          start='            script.apply(&mut actual_records, offset, POSTUNTRANS_TAGS);\n        }\n',
+          start='        if let Some(vendor) = self.vendor {', keep_start=True,
           end='        let header = Header::from_entries(actual_records, IndexTag::RPMTAG_HEADERIMMUTABLE);',
           subs=[(re.compile(r'\A'), '        let mut actual_records = records;\n        broadcast use lemma_push_has;\n', 1, 'block prologue: bind the free variable'),
                 ],
@@ -128,8 +279,28 @@ impl PackageBuilder {
             opt_emitted(r@, 1094, self.cookie),             // RPMTAG_COOKIE''',
           tail='''
         actual_records'''),
+    Raw('}\nimpl Scriptlet {\n'),
+    Fn(TYPES, 'apply', impl='impl Scriptlet',
+       subs=[('vec![flags.bits()]', 'vec_one_u32(flags.bits())', None, 'R9-vec![x]')],
+       spec='''    ensures
+        prefix_of(old(records)@, final(records)@),
+        scriptlet_emitted(final(records)@, Some(self), tags.0.spec_to_u32(), tags.1.spec_to_u32(), tags.2.spec_to_u32()),''',
+       prologue='broadcast use lemma_push_kept;',
+       before=[]),
     Raw('''}
-// vacuity canary: must FAIL
+#[verifier::external_body]
+pub fn vec_one_u32(x: u32) -> (r: Vec<u32>) ensures r@ == seq![x] { vec![x] }
+impl PackageBuilder {
+'''),
+] + SCRIPT_BLOCKS + [
+    Raw('''}
+// vacuity canaries: must FAIL
+pub fn canary_b9(b: PackageBuilder, records: Vec<IndexEntry<IndexTag>>)
+{
+    let ghost n = records@.len();
+    let r = b.b9_post_untrans_script(0, records);
+    assert(r@.len() == n);
+}
 pub fn canary_b7(b: PackageBuilder, records: Vec<IndexEntry<IndexTag>>)
 {
     let r = b.b7_optional_records(0, records);
@@ -138,5 +309,6 @@ pub fn canary_b7(b: PackageBuilder, records: Vec<IndexEntry<IndexTag>>)
 '''),
 ] + TAIL
 
-OBLIGATIONS = {'PackageBuilder::b6_scalar_records': ['C06'], 'PackageBuilder::b7_optional_records': ['C06'], 'lemma_push_has': ['C06'], 'lemma_grew_trans': ['C06']}
-CANARIES = ['canary_b7']
+OBLIGATIONS = {'PackageBuilder::b6_scalar_records': ['C06'], 'PackageBuilder::b7_optional_records': ['C06'], 'lemma_push_has': ['C06'], 'lemma_grew_trans': ['C06'], 'Scriptlet::apply': ['C06'], 'lemma_prefix_trans': ['C06'], 'lemma_prefix_emitted': ['C06'], 'lemma_scriptlet_chain': ['C06'], 'lemma_push_kept': ['C06'], 'lemma_prefix_kept': ['C06']}
+OBLIGATIONS.update({'PackageBuilder::b9_%s' % g[0][0]: ['C06'] for g in _GROUPS})
+CANARIES = ['canary_b7', 'canary_b9']
